@@ -135,6 +135,7 @@ impl Bin {
                     let body_instrs_nested: Result<Vec<Vec<Instr>>> = ev
                         .body
                         .iter()
+                        .filter(|expr| !matches!(expr, Expr::None)) // comments
                         .map(|expr| {
                             scope.clear_tmps();
                             compile_expr(expr, &mut scope).map(|t| t.0) // Result<Vec<Instr>>
